@@ -1,7 +1,580 @@
 package main
 
-// Command generators for the zset module (placeholder).
+// Command generator for the sorted-set module (C17): all 25 Z* commands plus a few generic
+// commands (DEL, TYPE, SET, PEXPIRE) that change what a key holds.
+//
+// Restrictions that keep every step inside the specification's arithmetic (spec/CmdZSet.tla):
+//   - scores are multiples of 1/4 written canonically (Q), small integers (I), +-inf (QInf) or
+//     come from a curated pool of literals whose parsing the model follows;
+//   - weights of the STORE forms are > 0 and almost always integers: a weight <= 0 can produce
+//     an IEEE negative zero (-1 * 0, 0 * -2) that prints as "-0" but cannot be told from 0 in the
+//     projected state, and a fractional weight mostly produces scores that are not multiples of
+//     1/4, which takes the destination out of the model for the rest of the program; the
+//     non-STORE forms use negative, zero and fractional weights (0.5, 1.5, 2.5) freely - the model
+//     skips the steps whose result has a negative zero, a NaN or a non-quarter score;
+//   - no exponent forms, no "nan", no literal longer than 7 digits.
 
+import (
+	"math/rand"
+)
+
+// Member pools.  Members are arbitrary byte strings (never typed); the pools contain the empty
+// string, CR LF, NUL, numeric-looking strings, a prefix pair ("a","ab","abc") and a pair where one
+// member contains the other without being its prefix ("ab" / "b", "ba" / "a"), which is where
+// internal.CompareLex disagrees with bytes.Compare.
+var zsetMemberPools = [][]string{
+	{"a", "b", "c", "d"},
+	{"a", "ab", "abc", "b", "ba"},
+	{"", "a", "x\r\ny", "\x00", "7", "1.5"},
+	{"one", "two", "three", "four", "five"},
+	{"a", "B", "b", "aa", " ", "\r\n"},
+	{"m1", "m2", "m3", "m10", "-3", "m"},
+}
+
+var zsetQuarters = []int64{0, 4, -4, 1, 6, -11, 8, 12, 40, 2, 4, 4}
+var zsetInts = []int64{0, 1, 2, -1, 3, 10, 1, 2}
+var zsetBadScores = []string{"abc", "", "1.5x", "--1", "1e", "(1", "[a", "one"}
+var zsetOddScores = []string{"007", "+5", ".5", "1.50", "5.", "-0", "2.0"}
+
+type zgen struct {
+	r    *rand.Rand
+	keys []string
+	mems []string
+	lex  bool  // programs in which (almost) all scores are equal, so that the BYLEX paths are live
+	lexQ int64 // the common score of such programs
+}
+
+func (g *zgen) key() Tok {
+	if g.r.Intn(3) == 0 {
+		return S(g.keys[0])
+	}
+	return S(pick(g.r, g.keys))
+}
+
+func (g *zgen) member() Tok {
+	if g.r.Intn(12) == 0 {
+		return B(pick(g.r, []string{"zz", "nope", "a\r\nb", "b"}))
+	}
+	return B(pick(g.r, g.mems))
+}
+
+// a valid score
+func (g *zgen) score() Tok {
+	if g.lex && g.r.Intn(8) != 0 {
+		return Q(g.lexQ)
+	}
+	switch g.r.Intn(12) {
+	case 0:
+		return QInf(1)
+	case 1:
+		return QInf(-1)
+	case 2, 3, 4:
+		return I(pick(g.r, zsetInts))
+	case 5:
+		return B(pick(g.r, zsetOddScores))
+	default:
+		return Q(pick(g.r, zsetQuarters))
+	}
+}
+
+// a score that is sometimes not a number
+func (g *zgen) scoreOrJunk() Tok {
+	if g.r.Intn(30) == 0 {
+		return B(pick(g.r, zsetBadScores))
+	}
+	return g.score()
+}
+
+// a score bound for ZCOUNT / ZRANGE BYSCORE / ZREMRANGEBYSCORE
+func (g *zgen) bound() Tok {
+	switch g.r.Intn(10) {
+	case 0, 1:
+		return QInf(-1)
+	case 2, 3:
+		return QInf(1)
+	case 4:
+		return B(pick(g.r, zsetBadScores))
+	default:
+		return g.score()
+	}
+}
+
+// a lexicographic bound: a member, a prefix of one, or one of Redis' "[a" "(a" "-" "+" spellings
+// (which this implementation treats as plain strings)
+func (g *zgen) lexBound() Tok {
+	switch g.r.Intn(10) {
+	case 0:
+		return B("")
+	case 1:
+		return B(pick(g.r, []string{"-", "+", "[a", "(b", "\xff"}))
+	case 2:
+		return B(pick(g.r, []string{"zzzz", "b", "ab", "a"}))
+	default:
+		return B(pick(g.r, g.mems))
+	}
+}
+
+func zq(t Tok) (int64, bool) { // value of a finite Q / I token in quarters
+	switch {
+	case t.Kind == "q" && t.Inf == 0:
+		return t.I, true
+	case t.Kind == "i":
+		return 4 * t.I, true
+	}
+	return 0, false
+}
+
+// lower and upper score bound: mostly a non-empty interval, sometimes reversed or not a number
+func (g *zgen) scoreBounds() (Tok, Tok) {
+	switch g.r.Intn(12) {
+	case 0, 1, 2, 3:
+		return QInf(-1), QInf(1)
+	case 4:
+		return QInf(-1), g.score()
+	case 5:
+		return g.score(), QInf(1)
+	case 6:
+		return g.bound(), g.bound()
+	case 7:
+		return QInf(1), QInf(-1)
+	default:
+		lo, hi := g.score(), g.score()
+		a, ok1 := zq(lo)
+		b, ok2 := zq(hi)
+		if ok1 && ok2 && a > b {
+			lo, hi = hi, lo
+		}
+		return lo, hi
+	}
+}
+
+// lower and upper lexicographic bound
+func (g *zgen) lexBounds() (Tok, Tok) {
+	switch g.r.Intn(8) {
+	case 0, 1:
+		return B(""), B("\xff\xff")
+	case 2:
+		return g.lexBound(), g.lexBound()
+	case 3:
+		return B(""), g.lexBound()
+	default:
+		lo, hi := pick(g.r, g.mems), pick(g.r, g.mems)
+		if lo > hi {
+			lo, hi = hi, lo
+		}
+		return B(lo), B(hi)
+	}
+}
+
+var zsetCounts = []int64{0, 1, 2, 3, -1, -2, 5, 10, 100, -100, 1, 2}
+
+func (g *zgen) intOrJunk(xs []int64) Tok {
+	switch g.r.Intn(30) {
+	case 0:
+		return B(pick(g.r, []string{"x", "", "1.5", "two", "1x"}))
+	case 1:
+		return B(pick(g.r, []string{"+2", "01", "-0"}))
+	default:
+		return I(pick(g.r, xs))
+	}
+}
+
+func (g *zgen) keysList(min, max int) []Tok {
+	n := min + g.r.Intn(max-min+1)
+	out := make([]Tok, 0, n)
+	for i := 0; i < n; i++ {
+		if g.r.Intn(14) == 0 {
+			out = append(out, S("nokey"))
+		} else {
+			out = append(out, g.key())
+		}
+	}
+	return out
+}
+
+func (g *zgen) zadd() []Tok {
+	c := []Tok{S("ZADD"), g.key()}
+	flags := []string{"NX", "XX", "GT", "LT", "CH", "INCR"}
+	switch g.r.Intn(8) {
+	case 0, 1, 2: // no flags
+	case 3, 4: // one flag
+		c = append(c, kw(g.r, pick(g.r, flags)))
+	case 5: // a legal combination
+		c = append(c, kw(g.r, pick(g.r, []string{"XX", "XX", "CH"})), kw(g.r, pick(g.r, []string{"GT", "LT", "CH", "INCR"})))
+	case 6: // random subset in random order
+		for _, i := range g.r.Perm(len(flags)) {
+			if g.r.Intn(3) == 0 {
+				c = append(c, kw(g.r, flags[i]))
+			}
+		}
+	case 7:
+		c = append(c, kw(g.r, pick(g.r, flags)))
+		if g.r.Intn(6) == 0 {
+			c = append(c, S("BOGUS"))
+		}
+	}
+	np := 1 + g.r.Intn(4)
+	if g.r.Intn(4) == 0 {
+		np = 1
+	}
+	for _, t := range c[2:] {
+		if upper(t.S) == "INCR" && g.r.Intn(8) != 0 {
+			np = 1 // INCR takes exactly one pair
+		}
+	}
+	for i := 0; i < np; i++ {
+		c = append(c, g.scoreOrJunk(), g.member())
+	}
+	if g.r.Intn(40) == 0 {
+		c = append(c, g.score()) // dangling score
+	}
+	if g.r.Intn(60) == 0 {
+		c = c[:2+g.r.Intn(2)] // too short
+	}
+	return c
+}
+
+func (g *zgen) rangeOpts(store bool) []Tok {
+	var c []Tok
+	var parts [][]Tok
+	if g.r.Intn(2) == 0 {
+		parts = append(parts, []Tok{kw(g.r, "REV")})
+	}
+	if g.r.Intn(2) == 0 {
+		switch g.r.Intn(24) {
+		case 0:
+			parts = append(parts, []Tok{kw(g.r, "LIMIT"), g.intOrJunk(zsetCounts)}) // count missing
+		case 1:
+			parts = append(parts, []Tok{kw(g.r, "LIMIT")})
+		case 2:
+			parts = append(parts, []Tok{kw(g.r, "LIMIT"), I(-1), I(2)})
+		default:
+			parts = append(parts, []Tok{kw(g.r, "LIMIT"), g.intOrJunk([]int64{0, 0, 0, 1, 1, 2, 3, 5}), g.intOrJunk([]int64{0, 1, 1, 2, 2, 3, -1, -2, 5, 10})})
+		}
+	}
+	if g.r.Intn(3) == 0 || (!store && g.r.Intn(2) == 0) {
+		parts = append(parts, []Tok{kw(g.r, "WITHSCORES")})
+	}
+	if g.r.Intn(20) == 0 {
+		parts = append(parts, []Tok{S("BOGUS")})
+	}
+	for _, i := range g.r.Perm(len(parts)) {
+		c = append(c, parts[i]...)
+	}
+	return c
+}
+
+func (g *zgen) zrange(store bool) []Tok {
+	var c []Tok
+	if store {
+		c = []Tok{S("ZRANGESTORE"), g.key(), g.key()}
+	} else {
+		c = []Tok{S("ZRANGE"), g.key()}
+	}
+	bylex := g.r.Intn(8) == 0
+	if g.lex {
+		bylex = g.r.Intn(3) != 0
+	}
+	if bylex {
+		lo, hi := g.lexBounds()
+		c = append(c, lo, hi)
+	} else {
+		lo, hi := g.scoreBounds()
+		c = append(c, lo, hi)
+	}
+	opts := g.rangeOpts(store)
+	mode := []Tok{}
+	if bylex {
+		mode = []Tok{kw(g.r, "BYLEX")}
+	} else if g.r.Intn(2) == 0 {
+		mode = []Tok{kw(g.r, "BYSCORE")}
+	}
+	if g.r.Intn(2) == 0 {
+		c = append(append(c, mode...), opts...)
+	} else {
+		c = append(append(c, opts...), mode...)
+	}
+	if g.r.Intn(40) == 0 {
+		for i := 0; i < 8; i++ {
+			c = append(c, S("BOGUS"))
+		}
+	}
+	if g.r.Intn(40) == 0 {
+		c = c[:3]
+	}
+	return c
+}
+
+// operand list with the optional WEIGHTS / AGGREGATE / WITHSCORES clauses in random order
+func (g *zgen) algebra(name string, store bool) []Tok {
+	c := []Tok{S(name)}
+	if store {
+		c = append(c, g.key())
+	}
+	ks := g.keysList(1, 3)
+	if g.r.Intn(40) == 0 {
+		ks = nil
+	}
+	c = append(c, ks...)
+	var parts [][]Tok
+	if g.r.Intn(2) == 0 {
+		w := []Tok{kw(g.r, "WEIGHTS")}
+		n := len(ks)
+		if g.r.Intn(20) == 0 {
+			n += g.r.Intn(3) - 1
+		}
+		pool := []int64{1, 2, 3, 1, 2, 10}
+		if !store {
+			pool = []int64{1, 2, 3, -1, -2, 0, 1, 2}
+		}
+		for i := 0; i < n; i++ {
+			switch g.r.Intn(25) {
+			case 0:
+				w = append(w, B(pick(g.r, []string{"x", "1.5x", ""})))
+			case 1, 2, 3:
+				if store && g.r.Intn(6) != 0 {
+					// a fractional weight mostly yields scores that are not multiples of 1/4, and a
+					// stored one takes the key out of the model for the rest of the program
+					w = append(w, I(pick(g.r, pool)))
+				} else {
+					w = append(w, Q(pick(g.r, []int64{2, 6, 10}))) // 0.5, 1.5, 2.5
+				}
+			default:
+				w = append(w, I(pick(g.r, pool)))
+			}
+		}
+		parts = append(parts, w)
+	}
+	if g.r.Intn(2) == 0 {
+		a := []Tok{kw(g.r, "AGGREGATE"), kw(g.r, pick(g.r, []string{"SUM", "MIN", "MAX"}))}
+		switch g.r.Intn(40) {
+		case 0:
+			a = a[:1] // AGGREGATE without its argument
+		case 1:
+			a[1] = S("AVG")
+		}
+		parts = append(parts, a)
+	}
+	if g.r.Intn(2) == 0 {
+		parts = append(parts, []Tok{kw(g.r, "WITHSCORES")})
+	}
+	for _, i := range g.r.Perm(len(parts)) {
+		c = append(c, parts[i]...)
+	}
+	return c
+}
+
+var zsetNames = []string{"ZADD", "ZCARD", "ZCOUNT", "ZDIFF", "ZDIFFSTORE", "ZINCRBY", "ZINTER", "ZINTERSTORE",
+	"ZLEXCOUNT", "ZMPOP", "ZMSCORE", "ZPOPMAX", "ZPOPMIN", "ZRANDMEMBER", "ZRANGE", "ZRANGESTORE", "ZRANK",
+	"ZREVRANK", "ZREM", "ZREMRANGEBYLEX", "ZREMRANGEBYRANK", "ZREMRANGEBYSCORE", "ZSCORE", "ZUNION", "ZUNIONSTORE"}
+
+func (g *zgen) cmd() []Tok {
+	r := g.r
+	switch r.Intn(56) {
+	case 0, 1, 2, 3, 4, 5, 6, 7, 8, 50, 51, 52, 53, 54, 55:
+		return g.zadd()
+	case 9:
+		return []Tok{S("ZCARD"), g.key()}
+	case 10, 11:
+		lo, hi := g.scoreBounds()
+		return []Tok{S("ZCOUNT"), g.key(), lo, hi}
+	case 12:
+		c := append([]Tok{S("ZDIFF")}, g.keysList(1, 3)...)
+		if r.Intn(2) == 0 {
+			c = append(c, kw(r, "WITHSCORES"))
+		}
+		if r.Intn(30) == 0 {
+			c = []Tok{S("ZDIFF"), S("WITHSCORES")}
+		}
+		if r.Intn(20) == 0 {
+			c = append(c, g.key()) // keys after WITHSCORES are ignored
+		}
+		return c
+	case 13:
+		return append([]Tok{S("ZDIFFSTORE"), g.key()}, g.keysList(1, 3)...)
+	case 14, 15, 16:
+		return []Tok{S("ZINCRBY"), g.key(), g.scoreOrJunk(), g.member()}
+	case 17, 18:
+		return g.algebra("ZINTER", false)
+	case 19, 20:
+		return g.algebra("ZINTERSTORE", true)
+	case 21, 22:
+		lo, hi := g.lexBounds()
+		return []Tok{S("ZLEXCOUNT"), g.key(), lo, hi}
+	case 23:
+		c := append([]Tok{S("ZMPOP")}, g.keysList(1, 3)...)
+		var parts [][]Tok
+		if r.Intn(4) != 0 {
+			parts = append(parts, []Tok{kw(r, pick(r, []string{"MIN", "MAX"}))})
+		}
+		if r.Intn(2) == 0 {
+			p := []Tok{kw(r, "COUNT"), g.intOrJunk([]int64{1, 1, 2, 2, 3, 0, -1, 10})}
+			if r.Intn(15) == 0 {
+				p = p[:1]
+			}
+			parts = append(parts, p)
+		}
+		for _, i := range r.Perm(len(parts)) {
+			c = append(c, parts[i]...)
+		}
+		return c
+	case 25:
+		c := []Tok{S("ZMSCORE"), g.key()}
+		n := 1 + r.Intn(3)
+		for i := 0; i < n; i++ {
+			c = append(c, g.member())
+		}
+		return c
+	case 24, 26:
+		return []Tok{S("ZSCORE"), g.key(), g.member()}
+	case 27:
+		c := []Tok{S(pick(r, []string{"ZPOPMIN", "ZPOPMAX"})), g.key()}
+		if r.Intn(2) == 0 {
+			c = append(c, g.intOrJunk([]int64{1, 1, 2, 2, 3, 0, -1, 10}))
+		}
+		return c
+	case 28, 29:
+		c := []Tok{S("ZRANDMEMBER"), g.key()}
+		if r.Intn(4) != 0 {
+			c = append(c, g.intOrJunk([]int64{1, 2, 3, 0, -1, -2, -3, -5, 5, 10}))
+			if r.Intn(2) == 0 {
+				c = append(c, kw(r, "WITHSCORES"))
+				if r.Intn(15) == 0 {
+					c[3] = S("BOGUS")
+				}
+			}
+		}
+		return c
+	case 30, 31, 32, 33, 34:
+		return g.zrange(false)
+	case 35, 36:
+		return g.zrange(true)
+	case 37, 38:
+		c := []Tok{S(pick(r, []string{"ZRANK", "ZREVRANK"})), g.key(), g.member()}
+		if r.Intn(2) == 0 {
+			c = append(c, kw(r, "WITHSCORES"))
+			if r.Intn(10) == 0 {
+				c[3] = S("WITHSCORE")
+			}
+		}
+		return c
+	case 39:
+		c := []Tok{S("ZREM"), g.key()}
+		n := 1 + r.Intn(3)
+		for i := 0; i < n; i++ {
+			c = append(c, g.member())
+		}
+		return c
+	case 40:
+		lo, hi := g.lexBounds()
+		if r.Intn(3) != 0 {
+			hi = lo // usually a narrow range, so that sets are not emptied all the time
+		}
+		return []Tok{S("ZREMRANGEBYLEX"), g.key(), lo, hi}
+	case 41:
+		idx := []int64{0, 0, 1, 1, 2, -1, -1, -2, 3, -4, 5, -6}
+		return []Tok{S("ZREMRANGEBYRANK"), g.key(), g.intOrJunk(idx), g.intOrJunk(idx)}
+	case 42:
+		lo, hi := g.scoreBounds()
+		if r.Intn(2) == 0 {
+			lo = g.score()
+			hi = lo
+		}
+		return []Tok{S("ZREMRANGEBYSCORE"), g.key(), lo, hi}
+	case 43:
+		return []Tok{S("ZSCORE"), g.key(), g.member()}
+	case 44, 45:
+		return g.algebra("ZUNION", false)
+	case 46:
+		return g.algebra("ZUNIONSTORE", true)
+	case 47:
+		// wrong arity of a random command
+		c := []Tok{S(pick(r, zsetNames))}
+		n := r.Intn(3)
+		for i := 0; i < n; i++ {
+			c = append(c, g.key())
+		}
+		if r.Intn(3) == 0 {
+			for i := 0; i < 10; i++ {
+				c = append(c, g.key())
+			}
+		}
+		return c
+	case 48:
+		switch r.Intn(4) {
+		case 0:
+			return []Tok{S("DEL"), g.key()}
+		case 1:
+			return []Tok{S("SET"), g.key(), B(pick(r, []string{"v", "7", "1.5", ""}))}
+		case 2:
+			return []Tok{S("PEXPIRE"), g.key(), I(pick(r, []int64{500, 1500, 10000}))}
+		default:
+			return []Tok{S("TYPE"), g.key()}
+		}
+	default:
+		return []Tok{S("TYPE"), g.key()}
+	}
+}
+
+// Presets: sorted sets of various shapes and keys of every other value type.
+func zsetPresets() [][][]Tok {
+	z := func(k string, ps ...any) []Tok {
+		c := []Tok{S("ZADD"), S(k)}
+		for i := 0; i < len(ps); i += 2 {
+			switch s := ps[i].(type) {
+			case int:
+				c = append(c, Q(int64(s)))
+			case Tok:
+				c = append(c, s)
+			}
+			c = append(c, B(ps[i+1].(string)))
+		}
+		return c
+	}
+	return [][][]Tok{
+		{},
+		{z("k1", 4, "a", 8, "b", 12, "c")},
+		{z("k1", 4, "a", 4, "b", 4, "c", 4, "ab")},
+		{z("k1", 4, "b", 4, "a", 0, "c", QInf(-1), "d", QInf(1), "ab", 6, "ba")},
+		{z("k1", 4, "a", 8, "b", 12, "c"), z("k2", 6, "b", 10, "c", 1, "d"), z("k3", -4, "c", 0, "a")},
+		{z("k1", 0, "a", 0, "b", 0, "c", 0, "abc", 0, "ba"), z("k2", 0, "b", 0, "ab")},
+		{{S("SET"), S("k1"), B("hello")}, z("k2", 4, "a", 8, "b")},
+		{{S("SET"), S("k2"), B("41")}, {S("SET"), S("k3"), B("1.5")}, z("k1", 4, "a")},
+		{{S("RPUSH"), S("k2"), B("a"), B("b")}, {S("HSET"), S("k3"), B("f"), B("v")}, z("k1", 4, "a", 4, "b")},
+		{{S("SADD"), S("k2"), B("a"), B("b")}, z("k1", 4, "a", 8, "b", 8, "c")},
+		{{S("RPUSH"), S("k1"), B("a")}, {S("HSET"), S("k2"), B("f"), B("v")}, {S("SADD"), S("k3"), B("a")}, {S("SET"), S("k4"), B("7")}},
+		{z("k1", 4, "a", 8, "b"), {S("PEXPIRE"), S("k1"), I(1500)}, z("k2", 4, "a")},
+		{z("k1", 4, "", 4, "x\r\ny", 8, "\x00", 8, "7")},
+		{z("k1", 4, "one", 8, "two", 12, "three", 16, "four", 20, "five", 24, "six"), z("k2", 4, "one", 40, "six")},
+	}
+}
+
+// RandomZSetPrograms builds n random programs of the given length.
 func RandomZSetPrograms(seed int64, n, length int) []Program {
-	return nil
+	r := rand.New(rand.NewSource(seed))
+	presets := zsetPresets()
+	var out []Program
+	for i := 0; i < n; i++ {
+		nk := 2 + r.Intn(3)
+		g := &zgen{r: r, keys: append([]string{}, []string{"k1", "k2", "k3", "k4"}[:nk]...)}
+		if r.Intn(6) == 0 {
+			g.keys[nk-1] = "10" // a key whose name looks like a number (and like a weight)
+		}
+		pool := zsetMemberPools[r.Intn(len(zsetMemberPools))]
+		nm := 3 + r.Intn(len(pool)-2)
+		g.mems = pool[:nm]
+		g.lex = r.Intn(3) == 0
+		g.lexQ = pick(r, []int64{0, 4, 6})
+		p := Program{Preset: presets[r.Intn(len(presets))]}
+		ticks := r.Intn(4) == 0
+		for j := 0; j < length; j++ {
+			var t int64
+			if ticks {
+				t = randTick(r)
+			}
+			p.Steps = append(p.Steps, Step{Cmd: g.cmd(), Tick: t})
+		}
+		out = append(out, p)
+	}
+	return out
 }
